@@ -35,7 +35,10 @@ Theorem c06_multipart_response : forall fmt_date parse_date content now ent req 
      forall n rs_ bf, run n streams (fst (body_init streams (rplan r))) = Ok (rs_, bf) ->
        existsb is_perr rs_ = false /\
        (exists rest, data_bytes rs_ ++ rest = mp_wire content (e_len ent) eh rs) /\
-       (existsb is_pend rs_ = true -> data_bytes rs_ = mp_wire content (e_len ent) eh rs)).
+       (existsb is_pend rs_ = true -> data_bytes rs_ = mp_wire content (e_len ent) eh rs) /\
+       (* ... and it does end: within one poll per part header, one per chunk or Pending of each
+          part's stream, one for the closing delimiter and one for the end *)
+       ((hm streams 0 (length rs) <= n)%nat -> existsb is_pend rs_ = true)).
 Proof. exact multipart_response. Qed.
 
 (* the streaming invariant behind it, including the order of the entity reads: one get_range call
@@ -45,8 +48,19 @@ Theorem c06_wire_step : forall content streams m pend, MInv m -> honest_for cont
   WState content m pend ->
   exists m' r, mp_poll MP_FUEL streams m = Ok (m', r) /\ is_perr r = false /\ MInv m' /\
                m_ranges m' = m_ranges m /\
-               exists pend', WState content m' pend' /\ pend = res_bytes r ++ pend' /\ (r = PEnd -> pend = []).
+               (exists pend', WState content m' pend' /\ pend = res_bytes r ++ pend' /\ (r = PEnd -> pend = [])) /\
+               (r = PEnd \/ wm streams m = S (wm streams m')).
 Proof. exact wire_step. Qed.
+
+(* liveness: every poll of an honest multipart body makes progress by the measure wm, so the clean
+   end is reached within wm m polls -- however the entity chunks its streams, with empty chunks and
+   Pendings counted as one poll each *)
+Theorem c06_honest_body_ends : forall content streams k m pend rs bf, MInv m -> honest_for content streams (m_ranges m) ->
+  WState content m pend -> (wm streams m <= k)%nat -> run k streams (BMulti m) = Ok (rs, bf) -> existsb is_pend rs = true.
+Proof. exact wire_terminates. Qed.
+Example c06_measure_instance :
+  hm [[EvData [1;2]; EvPending; EvData [3]]; [EvData [4]]] 0 2 = 8%nat.   (* 2 headers + 3 + 1 events + delimiter + end *)
+Proof. reflexivity. Qed.
 
 Example c06_instance :
   mp_wire (fun p => p) 240 [(bs "content-type", bs "t")] [(0, 2); (3, 5)] =
@@ -59,3 +73,4 @@ Print Assumptions c06_part_header.
 Print Assumptions c06_length.
 Print Assumptions c06_multipart_response.
 Print Assumptions c06_wire_step.
+Print Assumptions c06_honest_body_ends.
